@@ -18,7 +18,7 @@
 EXTENDS Naturals, Sequences, FiniteSets, TLC, Json
 
 LexLen     == JsonDeserialize("lexemes.json")       \* [lexeme id |-> byte length]
-Structures == JsonDeserialize("structures.json")    \* <<[exh: BOOLEAN, lay: layout record, nodes: <<node>>]>>
+Structures == JsonDeserialize("structures.json")    \* <<[exh: BOOLEAN, lays: <<layout record>> (per statement), nodes: <<node>>]>>
 
 WSLen == [none |-> 0, sp1 |-> 1, sp2 |-> 2, sp4 |-> 4, tab |-> 1]
 
@@ -71,13 +71,17 @@ Stmt(n, l) ==
                            ELSE W(l.arrowL) \o Tk("OUTPUT", "", 2) \o W(l.arrowR)
                                 \o (IF Len(n.outs) = 1 /\ ~l.parenSingle THEN Arg(n.outs[1]) ELSE ArgList(n.outs, l)))
                        \o W(l.lbL) \o Body(n.cmds, l)
+\* the layout may differ from statement to statement (ls: one layout per statement; a shorter sequence repeats its last element),
+\* so one file can mix line endings, indentation and spacing styles
+LayAt(ls, i) == IF i <= Len(ls) THEN ls[i] ELSE ls[Len(ls)]
 RECURSIVE Stmts(_, _, _)
-Stmts(st, i, l) == IF i > Len(st) THEN << >>
-                   ELSE Stmt(st[i], l)
-                        \o (IF i < Len(st) THEN EOL(l) \o Rep(EOL(l), l.blank) ELSE Rep(EOL(l), l.finalNL))
-                        \o Stmts(st, i + 1, l)
+Stmts(st, i, ls) == IF i > Len(st) THEN << >>
+                    ELSE LET l == LayAt(ls, i) IN
+                         Stmt(st[i], l)
+                         \o (IF i < Len(st) THEN EOL(l) \o Rep(EOL(l), l.blank) ELSE Rep(EOL(l), l.finalNL))
+                         \o Stmts(st, i + 1, ls)
 Lead(l) == CASE l.lead = "none" -> << >> [] l.lead = "lf" -> EOL(l) [] OTHER -> W("sp2") \o EOL(l)
-Render(st, l) == Lead(l) \o Stmts(st, 1, l)
+Render(st, ls) == Lead(ls[1]) \o Stmts(st, 1, ls)
 
 \* ---------- the printer: the canonical text `--fmt` writes for a structure (independent of the layout it was read from) ----------
 \* ast.Tree.String: comments as "# " + trimmed text (an empty comment prints nothing), `NAME := value`, tasks as
@@ -124,7 +128,7 @@ Toks(ps, i, off, line) ==
 \* ---------- one scenario per state ----------
 VARIABLES si, lay
 Init == /\ si \in DOMAIN Structures
-        /\ lay \in (IF Structures[si].exh THEN ExhLayouts ELSE {Structures[si].lay})
+        /\ lay \in (IF Structures[si].exh THEN {<<l>> : l \in ExhLayouts} ELSE {Structures[si].lays})
 Next == UNCHANGED <<si, lay>>
 Pieces == Render(Structures[si].nodes, lay)
 DToks == Toks(Pieces, 1, 0, 1)
